@@ -553,8 +553,10 @@ impl NameGen {
         let mut name = if src.chance(cfg.p_odd_name, 16) {
             // arbitrary short strings over letters and the characters that get sanitised, so that
             // runs of separators, leading / trailing separators and separator-only names occur
-            const ALPHA: [char; 12] = [
-                'a', 'b', ' ', '-', '/', '_', 'c', '"', '\\', '\u{4e2d}', '\u{42f}', '\u{e9}',
+            // (no tab and no line break: the printed plan is a tab-indented, line-oriented text)
+            const ALPHA: [char; 14] = [
+                'a', 'b', ' ', '-', '/', '_', 'c', '"', '\\', '\u{4e2d}', '\u{42f}', '\u{e9}', '\u{a0}',
+                '\u{2003}',
             ];
             let len = 1 + src.pick(5);
             let mut n = String::new();
